@@ -166,9 +166,9 @@ def run(ctx):
     ctx.floor("castle-right installations in the builder", nslot, 2)
     ctx.rule("ep-rank-guard")
     guards = {}
-    for name, tag in ((BUILDER + "::add_en_passant", "builder"), (B + "::parse_en_passant", "parser")):
+    for name, tag in ((g.stage_for(BUILDER + "::build", "ep"), "builder"), (g.stage_for(B + "::from_fen", "ep"), "parser")):
         b0 = f.need(name)
-        ps = sym.SymExec(f, b0, inline=lambda n: False if "_is_valid" in n else None).run()
+        ps = sym.SymExec(f, b0, inline=lambda n: False if g.validator_role(n) is not None else None).run()
         found = set()
         for p in ps:
             if p.end == "return" and p.ret[0] == "agg" and p.ret[2] == "Err":
